@@ -12,7 +12,8 @@ LEVEL_TEXT = ("Clause-level static rules: every variable-bearing operand of each
               "the boundary is the function outputs, direction backward; dead = block variables - live-out; the assertion crawler "
               "overrides visit for every statement kind that has a def or a use (the visitor defaults are empty) and rewrites a "
               "dependence set as (d - defs) + uses. Control-dependence graph construction and inter-procedural summary "
-              "application are NOT decided.")
+              "application are NOT decided."
+              " The backward boundary value is given to the exit block whatever else holds; the fact of an assertion is joined with the incoming fact; set renaming is simultaneous; per-statement results are replayed from the exit facts.")
 ASSUMPTIONS = ["the kill/gen fixpoint iterator visits every block until stabilisation (graph algorithm, not decided)"]
 
 LIVE = "include/crab/analysis/dataflow/liveness.hpp"
